@@ -72,8 +72,10 @@ impl Diagnostic {
         let (start_line, start_col) = line_index.line_col(range.start());
 
         // we subtract 1 since end_line_column is inclusive,
-        // unlike TextRange which is always exclusive
-        let (end_line, end_col) = line_index.line_col(range.end() - TextSize::from(1));
+        // unlike TextRange which is always exclusive.
+        // an empty range (e.g. a missing argument) points at the character it sits in front of,
+        // otherwise the end would come before the start (and on the previous line at column 0)
+        let (end_line, end_col) = line_index.line_col(inclusive_end(range));
 
         let (ansi_reset, ansi_yellow, ansi_red, ansi_white, ansi_blue) = if with_colors {
             (
@@ -125,7 +127,7 @@ impl Diagnostic {
 
             // we subtract 1 since end_line_column is inclusive,
             // unlike TextRange which is always exclusive
-            let (end_line, end_col) = line_index.line_col(range.end() - TextSize::from(1));
+            let (end_line, end_col) = line_index.line_col(inclusive_end(range));
 
             input_snippet(
                 filename,
@@ -240,6 +242,14 @@ impl HelpDiagnostic<'_> {
                 ty_diagnostic_help_message(d, mod_dir, interner, show_complex_info)
             }
         }
+    }
+}
+
+fn inclusive_end(range: TextRange) -> TextSize {
+    if range.is_empty() {
+        range.start()
+    } else {
+        range.end() - TextSize::from(1)
     }
 }
 
